@@ -181,37 +181,46 @@ def run_history(tc: bool, hist: Sequence[Tuple], last_only: bool = True) -> Dict
     mmx.fresh_gc()
     rig = Rig(tc)
     probs: List[Dict[str, Any]] = []
+    key = ("dead",)
     try:
-        res = None
-        for i, op in enumerate(hist):
-            res = rig.apply(op)
-            if i < len(hist) - 1 and not last_only:
-                probs += rig.probe(f"after op {i}")
-        if res is not None:
-            op = hist[-1]
-            before, after = res["before"], res["after"]
-            if res["raised"] and res["raised"] != "InvalidSubscription":
-                probs.append({"kind": "unexpected-exception", "exc": res["raised"]})
-            sub_all_before = before[2]
-            individual = op[0] in ("subscribe", "unsubscribe", "pause_subscription", "resume_subscription") and ALL not in op[1] \
-                or op[0].endswith("_context")
-            if sub_all_before and individual and (len(op) > 1 and len(op[1]) > 0 or op[0].endswith("_context")):
-                filtered_empty = False
-                if not (op[0].endswith("_context")):
-                    if res["raised"] != "InvalidSubscription":
-                        probs.append({"kind": "individual-change-not-refused", "state": before})
-                    if res["wire_bytes"]:
-                        probs.append({"kind": "refused-change-reached-the-wire", "bytes": res["wire_bytes"]})
-                    if after != before:
-                        probs.append({"kind": "refused-change-altered-client-state", "before": before, "after": after})
-            elif res["raised"] == "InvalidSubscription" and not sub_all_before:
-                probs.append({"kind": "InvalidSubscription-without-sub-all", "state": before})
-            if op[0].endswith("_context"):
-                probs += res.get("inside_problems", [])
-                if (after[0], after[1]) != (before[0], before[1]) or after[2] != before[2]:
-                    probs.append({"kind": "context-did-not-restore", "before": _names(before), "after": _names(after)})
-            probs += rig.probe("after operation")
-        key = (rig.client_state(), rig.manager_state())
+      try:
+          res = None
+          for i, op in enumerate(hist):
+              res = rig.apply(op)
+              if i < len(hist) - 1 and not last_only:
+                  probs += rig.probe(f"after op {i}")
+          if res is not None:
+              op = hist[-1]
+              before, after = res["before"], res["after"]
+              if res["raised"] and res["raised"] != "InvalidSubscription":
+                  probs.append({"kind": "unexpected-exception", "exc": res["raised"]})
+              sub_all_before = before[2]
+              individual = op[0] in ("subscribe", "unsubscribe", "pause_subscription", "resume_subscription") and ALL not in op[1] \
+                  or op[0].endswith("_context")
+              if sub_all_before and individual and (len(op) > 1 and len(op[1]) > 0 or op[0].endswith("_context")):
+                  filtered_empty = False
+                  if not (op[0].endswith("_context")):
+                      if res["raised"] != "InvalidSubscription":
+                          probs.append({"kind": "individual-change-not-refused", "state": before})
+                      if res["wire_bytes"]:
+                          probs.append({"kind": "refused-change-reached-the-wire", "bytes": res["wire_bytes"]})
+                      if after != before:
+                          probs.append({"kind": "refused-change-altered-client-state", "before": before, "after": after})
+              elif res["raised"] == "InvalidSubscription" and not sub_all_before:
+                  probs.append({"kind": "InvalidSubscription-without-sub-all", "state": before})
+              if op[0].endswith("_context"):
+                  probs += res.get("inside_problems", [])
+                  if (after[0], after[1]) != (before[0], before[1]) or after[2] != before[2]:
+                      probs.append({"kind": "context-did-not-restore", "before": _names(before), "after": _names(after)})
+              probs += rig.probe("after operation")
+          key = (rig.client_state(), rig.manager_state())
+      except Exception as e:
+        # anything unexpected while the manager is dead is the manager's death, not a harness failure
+        ex = rig.w.exit
+        if rig.w.finished and ex and ex[0] in ("died", "stall"):
+            probs.append({"kind": "manager-" + ex[0], "detail": str(ex[1])[:200]})
+        else:
+            raise
     finally:
         rig.close()
     return {"problems": probs, "key": key}
